@@ -8,7 +8,10 @@
    Trace record: {pat, ov, lpat ([] = no label), lov, code, version, header: [l1, l2],
      rows: {gfx, label, gff, map, sfx, music} (lists of row strings as found in the file),
      lua (code points of the __lua__ section text),
-     rb: {diff: [[addr, val]], code, labelPresent, labelDiff: [[i, val]], version}, rewriteSame, focus}. *)
+     rb: {diff: [[addr, val]], code, labelPresent, labelDiff: [[i, val]], version}, rewriteSame, focus,
+     truncated (optional, TRUE: the file is in the shape PICO-8 itself saves - the rows at the end of the gfx, gff,
+     map and music sections that hold only default data are left out, as are sections left with no row; the
+     reader must still produce the full regions)}. *)
 EXTENDS P8sciiTable, Integers, TLCExt
 Traces == JsonDeserialize(IOEnv.TRACE_FILE)
 HexCh == <<"0","1","2","3","4","5","6","7","8","9","a","b","c","d","e","f">>
@@ -37,6 +40,9 @@ Secs == <<"gfx", "label", "gff", "map", "sfx", "music">>
 NRows(s) == CASE s = "gfx" -> 128 [] s = "label" -> (IF HasLabel THEN 128 ELSE 0) [] s = "gff" -> 2 [] s = "map" -> 32 [] s = "sfx" -> 64 [] s = "music" -> 64
 Exp(s, k) == CASE s = "gfx" -> GfxRow(k) [] s = "label" -> LabelRow(k) [] s = "gff" -> PlainRow(GFF, k)
               [] s = "map" -> PlainRow(MAPB, k) [] s = "sfx" -> SfxRow(k) [] s = "music" -> MusRow(k)
+Truncated == "truncated" \in DOMAIN TR /\ TR.truncated
+Zeros128 == Cat([j \in 1..128 |-> "0"], 128)
+DefaultRow(s) == CASE s \in {"gfx", "label"} -> Zeros128 [] s \in {"gff", "map"} -> Zeros128 \o Zeros128 [] s = "music" -> "00 41424344" [] OTHER -> "<never>"
 Init == tid \in 1..Len(Traces) /\ sec = 0 /\ r = 0 /\ verdict = "run"
 Stop(v) == verdict' = v /\ UNCHANGED <<tid, sec, r>>
 \* ---- C03: what reading the file back must give ----
@@ -62,8 +68,10 @@ Step ==
          ELSE sec' = 1 /\ r' = 0 /\ UNCHANGED <<tid, verdict>>)
      ELSE IF sec > Len(Secs) THEN Final
      ELSE LET s == Secs[sec] IN
-       IF r = 0 /\ Len(TR.rows[s]) # NRows(s) THEN Stop("rowcount-" \o s)
+       IF r = 0 /\ (IF Truncated THEN Len(TR.rows[s]) > NRows(s) ELSE Len(TR.rows[s]) # NRows(s)) THEN Stop("rowcount-" \o s)
        ELSE IF r >= NRows(s) THEN sec' = sec + 1 /\ r' = 0 /\ UNCHANGED <<tid, verdict>>
+       ELSE IF r >= Len(TR.rows[s]) THEN      \* (only in a truncated file) an omitted row: it must hold default data
+            (IF Exp(s, r) # DefaultRow(s) THEN Stop("row-omitted-" \o s) ELSE r' = r + 1 /\ UNCHANGED <<tid, sec, verdict>>)
        ELSE IF TR.rows[s][r + 1] # Exp(s, r) THEN Stop("row-" \o s)
        ELSE r' = r + 1 /\ UNCHANGED <<tid, sec, verdict>>
 Spec == Init /\ [][Step]_vars
